@@ -436,8 +436,8 @@ func (v *visitor) checkFunc(fn reflect.Type, method bool, node ast.Node, name st
 			in = fn.In(i + offset)
 		}
 
-		// An integer literal takes the parameter's type only if that is a numeric (or interface) type.
-		if isIntegerOrArithmeticOperation(arg) && isNumber(in) {
+		// An integer literal takes the parameter's type only if that is a numeric type.
+		if isIntegerOrArithmeticOperation(arg) && isNumber(in) && !isInterface(in) {
 			t = in
 			setTypeForIntegers(arg, t)
 		}
